@@ -166,7 +166,40 @@ def run(repo: Repo, chk: Check, thorough: bool = False) -> None:
                     f': a node whose visit raises {name} loses its whole subtree, for the main visitor and every extension' if want else
                     f'after `except {", ".join(handler_names(h)) if h is not None else "?"}` the children are still walked although {name} prunes them'),
                    f'{wf.mod.relpath}:{h.lineno if h is not None else vs_.lineno}')
-    chk.require('R19.1', 12)
+    # a SkipSiblings that visit() raised is RECORDED and must leave this activation as an exception whatever the children do - also when a child ends the
+    # children loop with a SkipSiblings of its own.  From the recording handler no path (exception edges to the local handlers included) reaches the normal
+    # end of the walker without passing a `raise`; the branch on which the record is None is infeasible there
+    for wname in ('walkabout', 'walk'):
+        wf = repo.func(f'{VIS}.{wname}')
+        cw = CFG(wf)
+        vc = [c for c in calls_in(wf) if call_name(c) == 'visit' and dotted(c.func) == 'self.visit']
+        h = _exc_flow(wf, cw.stmt_of(vc[0]), 'SkipSiblings', repo)
+        if h is None:
+            chk.ob('R19.1', f'{VIS}.{wname} :: a recorded SkipSiblings always leaves the walker as an exception', False, 'SkipSiblings raised by visit() is not caught', wf.loc)
+            continue
+        rec = {t.id for st in h.body for n in ast.walk(st) if isinstance(n, ast.Assign) and isinstance(n.value, ast.Name) and n.value.id == h.name
+               for t in n.targets if isinstance(t, ast.Name)}
+        raises_ = [n for n in wf.walk() if isinstance(n, ast.Raise)]
+
+        def none_edge(l: Tuple[ast.expr, bool]) -> bool:
+            t, pol = l
+            while isinstance(t, ast.UnaryOp) and isinstance(t.op, ast.Not):
+                t, pol = t.operand, not pol
+            if isinstance(t, ast.Name) and t.id in rec:
+                return not pol
+            if isinstance(t, ast.Compare) and len(t.ops) == 1 and isinstance(t.left, ast.Name) and t.left.id in rec and \
+                    isinstance(t.comparators[0], ast.Constant) and t.comparators[0].value is None:
+                return (isinstance(t.ops[0], ast.Is) and pol) or (isinstance(t.ops[0], ast.IsNot) and not pol)
+            return False
+        dead = [(nid, id(t), k) for nid, edges in cw.succ.items() for (t, l, k) in edges if l is not None and none_edge(l)]
+        r = cw.reachable(h, avoid_nodes=raises_, avoid_edges=dead)
+        lost = id(cw.EXIT) in r or not rec
+        chk.ob('R19.1', f'{VIS}.{wname} :: a recorded SkipSiblings always leaves the walker as an exception', not lost,
+               f'every path from `except SkipSiblings` to the end of {wname}() passes a raise' if not lost else
+               f'{wname}() can return normally after visit() raised SkipSiblings (e.g. when a child ends the children loop with a SkipSiblings of its own, the '
+               're-raise is skipped): the later siblings of the node are entered by the main visitor and by every extension although they were pruned',
+               f'{wf.mod.relpath}:{h.lineno}')
+    chk.require('R19.1', 14)
 
     # ------------------------------------------------------------------ R19.2
     for meth in ('visit', 'depart'):
